@@ -12,7 +12,7 @@ ASSUMPTIONS = ['own Threefish/UBI/Skein reference incl. tree hashing (self-teste
 ANCHORS = [('skein.py', 'Skein._initstate'), ('skein.py', 'UBI.iterblocks'), ('skein.py', 'UBI.__call__'), ('skein.py', 'Skein.output'),
            ('skein.py', 'Skein._treehash'), ('skein.py', 'Skein.update'), ('skein.py', 'Tweak.Position'), ('skein.py', 'Tweak.Type'),
            ('skein.py', 'Tweak.First'), ('skein.py', 'Tweak.Final'), ('skein.py', 'Tweak.BitPad'), ('skein.py', 'Tweak.TreeLevel')]
-REQUIRED = ['skein==spec', 'output-length', 'tweak-trace==spec', 'tweak-grammar', 'tree==spec', 'ubi-position-carry==spec']
+REQUIRED = ['siblings:skein==spec', 'skein==spec', 'output-length', 'tweak-trace==spec', 'tweak-grammar', 'tree==spec', 'ubi-position-carry==spec']
 NSHARDS = 14
 SAN = {'quick': (2, 60), 'thorough': (2, 60)}
 
@@ -47,6 +47,8 @@ def cases(tier, rng):
                         if tier == 'quick' and (Yl + Yf + Ym + nl) % 2 and nl not in (0, 1):
                             continue
                         yield {'k': 'tree', 'Nb': Nb, 'Y': [Yl, Yf, Ym], 'nl': nl, 'extra': [0, 1, nb - 1][(nl + Yl) % 3], 'keyc': 'short' if nl % 4 == 3 else 'absent'}
+        for j in range(4 if tier == 'quick' else 30):
+            yield {'k': 'siblings', 'Nb': Nb, 'j': j}
         for kk in (1, nb, nb + 1, 2 * nb, 3 * nb):
             for ml in (0, 1, nb, 2 * nb + 1, 3 * nb):
                 yield {'k': 'ubi', 'Nb': Nb, 'pos': (1 << 64) - kk, 'ml': ml, 'L': None if ml % 2 == 0 else 8 * ml - 5}
@@ -162,6 +164,19 @@ def run(case, ctx, rng):
         ctx.eq('tree==spec', got, want, **det)
         if not is_exc(got):
             ctx.eq('tweak-trace==spec', [hex(x) for x in rec.log], [hex(x) for x in wtrace], **det)
+    elif k == 'siblings':
+        # Skein objects of different state sizes / keys but the same output length and configuration, alive together
+        from vmon.core import siblings
+        No = [256, 8, 24, 512][case['j'] % 4]
+        ctx.cls((Nb, 'siblings', No))
+        specs = []
+        for t, N in enumerate(rng.sample([256, 512, 1024], 3) + [Nb]):
+            M1 = rng.randbytes(rng.choice([0, 5, N // 8 + 1])); M2 = rng.randbytes(3)
+            key = None if t != 2 else rng.randbytes(7)
+            kw = {} if key is None else {'key': key}
+            specs.append(('Skein(%d,%d%s)#%d' % (N, No, ',key' if key else '', t), (lambda N=N, kw=kw: Skein(N, No, **kw)),
+                          [('h(M1)', (lambda o, M=M1: o(M)), rs.skein(N, No, M1, key=key)), ('h(M2,bitlen=13)', (lambda o, M=M2: o(M, 13)), rs.skein(N, No, M2, 13, key=key))]))
+        siblings(ctx, rng, 'siblings:skein==spec', specs, late=specs.pop(), No=No)
     elif k == 'ubi':
         pos, ml, L = case['pos'], case['ml'], case['L']
         M = rng.randbytes(ml); G = rng.randbytes(nb)
